@@ -248,3 +248,10 @@ def run(prog: Program, ctx: Ctx) -> None:  # noqa: PLR0912,PLR0915
 
     import_rules(prog, ctx, "R6")
     importfrom_table(prog, ctx, "R7")
+
+    # ------------------------------------------------------------------ R8 scope of names inside quoted annotations
+    from sa.rules.C03 import string_annotation_scope_rows
+
+    ctx.rule("R8", "the names inside a quoted annotation are resolved in the scope the annotation is written in (the class body for an annotation in a "
+                   "class, the very module object being built - not another load of the same path)")
+    string_annotation_scope_rows(prog, ctx, "R8")
